@@ -15,15 +15,6 @@ abbrev linM (M : Mat (d + 1)) : Matrix (Fin d) (Fin d) ℚ := toM (lin M)
 theorem linM_mul {A B : Mat (d + 1)} (hB : IsAffine B) : linM (Mat.mul A B) = linM A * linM B := by
   simp only [linM, lin_mul hB, toM_mul]
 
-/-- the non-alignment class an alignment class is a variant of -/
-def baseOf : HCls → HCls
-  | .AlignmentAffine => .Affine
-  | .AlignmentSimilarity => .Similarity
-  | .AlignmentRotation => .Rotation
-  | .AlignmentTranslation => .Translation
-  | .AlignmentUniformScale => .UniformScale
-  | c => c
-
 /-- What it means for a matrix to "really be" a member of each of the seven base classes:
 * Affine: bottom row `(0,…,0,1)`;
 * Similarity: affine with `Lᵀ L = λ·1`, `λ > 0`;
